@@ -81,6 +81,94 @@ impl Fresh<'_> {
     }
 }
 
+/// one operation of kind `op`, returning the random fields it produced: (class, value)
+fn one_op<B: Backend>(op: usize, kl: &KeyPair<B>, kp: &KeyPair<B>, s: &Secrets, wrapped_local: &[u8], wrapped_secret: &[u8]) -> Result<Vec<(String, Vec<u8>)>, PasetoError> {
+    let msg = b"{\"sub\":\"same message every time\"}";
+    let tl = if B::VER % 2 == 1 { 48 } else { 32 };
+    Ok(match op {
+        0 => {
+            let (_, body, _) = split_token(&kl.seal(msg, b"", b"")?);
+            vec![(format!("{}.local.nonce", B::NAME), body[..B::LOCAL_NONCE].to_vec())]
+        }
+        1 => {
+            if !(B::NAME == "v3lc" || B::VER == 1) {
+                return Ok(vec![]);
+            }
+            let (_, body, _) = split_token(&kp.seal(msg, b"", b"")?);
+            let sig = &body[body.len() - B::SIG..];
+            vec![(format!("{}.public.{}", B::NAME, if B::VER == 1 { "pss-signature" } else { "ecdsa-r" }), if B::VER == 1 { sig.to_vec() } else { sig[..48].to_vec() })]
+        }
+        2..=6 => {
+            let kind = WKS[op - 2];
+            if kind == Wk::Seal && B::VER == 1 {
+                return Ok(vec![]); // an RSA-4096 operation per call; covered by the sequential part
+            }
+            let key_raw = if kind.wraps_secret() { wrapped_secret } else { wrapped_local };
+            let (_, body) = split_paserk(&wrap::<B>(kind, key_raw, s)?);
+            match kind {
+                Wk::PieLocal | Wk::PieSecret => vec![(format!("{}.{}.nonce", B::NAME, kind.name()), body[tl..tl + 32].to_vec())],
+                Wk::PwLocal | Wk::PwSecret => {
+                    let (sl, pl, nl) = if B::VER % 2 == 1 { (32, 4, 16) } else { (16, 16, 24) };
+                    vec![(format!("{}.{}.salt", B::NAME, kind.name()), body[..sl].to_vec()), (format!("{}.{}.nonce", B::NAME, kind.name()), body[sl + pl..sl + pl + nl].to_vec())]
+                }
+                Wk::Seal => vec![(format!("{}.seal.ephemeral-public-key", B::NAME), if B::VER == 3 { body[48..97].to_vec() } else { body[32..64].to_vec() })],
+            }
+        }
+        7 => vec![(format!("{}.generated-local-key", B::NAME), key_bytes(&<paseto_core::LocalKey<B>>::random()?))],
+        _ => {
+            if B::VER == 1 {
+                return Ok(vec![]);
+            }
+            vec![(format!("{}.generated-secret-key", B::NAME), key_bytes(&<paseto_core::SecretKey<B>>::random()?))]
+        }
+    })
+}
+
+/// The first randomness-consuming operation of a thread: rounds of 8 freshly spawned threads, each of
+/// which performs operation kind `op` as the first thing it does (then two more). All fields go to the
+/// same event log as the sequential part, so a value shared between threads - or between a thread
+/// and anything the sequential part produces - is a repeat for the offline checker; within a round
+/// the fields are compared directly as well.
+fn thread_first<B: Backend>(opts: &Opts, fr: &mut Fresh, kl: &KeyPair<B>, kp: &KeyPair<B>, s: &Secrets, wrapped_local: &[u8], wrapped_secret: &[u8])
+where
+    KeyPair<B>: Sync,
+{
+    let rounds = opts.size(3, 24).div_ceil(opts.nshards.min(4));
+    let base = ((opts.shard as u64) << 40) | (1 << 39);
+    let mut seq = 0u64;
+    for round in 0..rounds {
+        for op in 0..9usize {
+            let results: Vec<Vec<Result<Vec<(String, Vec<u8>)>, PasetoError>>> = std::thread::scope(|sc| {
+                let hs: Vec<_> = (0..8)
+                    .map(|_| sc.spawn(move || (0..3).map(|_| one_op::<B>(op, kl, kp, s, wrapped_local, wrapped_secret)).collect::<Vec<_>>()))
+                    .collect();
+                hs.into_iter().map(|h| h.join().unwrap_or_default()).collect()
+            });
+            let mut firsts: Vec<(String, Vec<u8>)> = vec![];
+            for (ti, per_thread) in results.into_iter().enumerate() {
+                for (k, r) in per_thread.into_iter().enumerate() {
+                    match r {
+                        Ok(fields) => {
+                            for (class, value) in fields {
+                                seq += 1;
+                                fr.observe(&class, base + seq, &value, &mut None);
+                                if k == 0 {
+                                    if let Some((_, other)) = firsts.iter().find(|(c, v)| *c == class && *v == value) {
+                                        fr.rep.violation(&format!("C16|{class}|first-draw-of-two-threads-identical"), json!({"class": class, "value": hx_short(other), "round": round, "thread": ti}));
+                                    }
+                                    firsts.push((class, value));
+                                }
+                            }
+                        }
+                        Err(e) => fr.rep.violation(&format!("C16|{}.op{op}|operation-failed:{}", B::NAME, err_kind(&e)), json!({"op": op, "thread": ti})),
+                    }
+                }
+            }
+            fr.rep.count_n("thread-first.threads-spawned", 8);
+        }
+    }
+}
+
 fn fresh_backend<B: Backend>(opts: &Opts, fr: &mut Fresh) {
     let stream = format!("c16.{}", B::NAME);
     let mut rng = Rng::derive(opts.seed, &stream, 0);
@@ -94,6 +182,9 @@ fn fresh_backend<B: Backend>(opts: &Opts, fr: &mut Fresh) {
     let shard_share = |n: usize| n.div_ceil(opts.nshards);
     let base = (opts.shard as u64) << 40;
     let fail = |rep: &mut Report, class: &str, e: &PasetoError| rep.violation(&format!("C16|{class}|operation-failed:{}", err_kind(e)), json!({"class": class}));
+
+    // threads first: nothing on this process's worker threads has drawn randomness before
+    thread_first::<B>(opts, fr, &kl, &kp, &s, &wrapped_local, &wrapped_secret);
 
     // local tokens: the embedded nonce
     let n = shard_share(opts.size(20_000, 100_000));
@@ -485,7 +576,7 @@ pub fn run(opts: &Opts) {
         run_fresh(opts, &mut rep);
         rep.set(
             "rule",
-            json!("Part A: per backend and operation kind N consecutive operations with identical key and message (quick 5000, thorough 100000; RSA fewer); the random field of every output (token nonce, ECDSA r, whole PSS signature, PIE nonce, PBKW salt and nonce, PKE ephemeral key / RSA-KEM ciphertext, generated key bytes) is logged; online: not constant / not a fixed pattern, consecutive outputs differ; offline checker over the logs of all shards: no value repeats; distinct = distinct random values. Ed25519 and RFC 6979 signatures carry no randomness and are excluded"),
+            json!("Part A0 (thread-first): rounds of 8 freshly spawned threads whose first library operation is one operation of a given kind (9 kinds), fields compared within the round and logged with the rest; Part A: per backend and operation kind N consecutive operations with identical key and message (quick 5000, thorough 100000; RSA fewer); the random field of every output (token nonce, ECDSA r, whole PSS signature, PIE nonce, PBKW salt and nonce, PKE ephemeral key / RSA-KEM ciphertext, generated key bytes) is logged; online: not constant / not a fixed pattern, consecutive outputs differ; offline checker over the logs of all shards: no value repeats; distinct = distinct random values. Ed25519 and RFC 6979 signatures carry no randomness and are excluded"),
         );
     }
     if opts.wants_part("faults") && opts.part.is_some() {
